@@ -27,6 +27,7 @@
     duplicates, `C31_lastCfg_nodup` says what `lastCfg` is when there are none.
 -/
 import QV.Proofs.Reload
+import QV.Generated.Reload
 
 namespace QV.C31
 open QV QV.Catalog QV.Reload QV.Spec.Catalog QV.Spec.Reload
@@ -88,6 +89,50 @@ theorem C31_query (steps : List Step) (n : DName) (cls : Nat) :
     unfold daemonRun at hst
     rw [hst] at this
     exact this
+
+/-! ### the daemon's signal loop (src/bin/quandaryd/run.rs)
+
+  `daemonRun` idealises the loop: every catalog a reload builds is what is served next and what
+  the next reload starts from. `loopRun sh` is the loop with that plumbing explicit, for a loop
+  of shape `sh`; the shape of the actual source is extracted on every run. -/
+
+/-- the shape of the loop in the repository under test (tools/extract_reload.py) -/
+def codeShape : LoopShape :=
+  ⟨Gen.reloadStartupInstallsCatalog, Gen.reloadLoopThreadsCatalog, Gen.reloadInstallsCatalog,
+   Gen.reloadBaselineIsCurrent⟩
+
+/-- **Structural premise, checked on the source on every run**: after the start-up load the
+    catalog is installed; the SIGHUP arm assigns the catalog returned by `reload_zones_and_keys`
+    to the variable it passes to the next call; a successful reload installs that catalog in the
+    server; and `zones::reload` gets that variable as its baseline. A tree in which any of these
+    no longer holds (e.g. the `Ok` arm stops assigning `catalog = new_catalog`) fails here. -/
+theorem C31_structural_premise :
+    Gen.reloadStartupInstallsCatalog = true ∧ Gen.reloadLoopThreadsCatalog = true ∧
+    Gen.reloadInstallsCatalog = true ∧ Gen.reloadBaselineIsCurrent = true := by decide
+
+/-- **The daemon loop.** For a loop with the four structural premises, after every history of
+    start-up + SIGHUPs (configuration errors included) the catalog the *server answers from* puts
+    every zone in the state the per-zone specification prescribes. -/
+theorem C31_daemon_loop (sh : LoopShape) (hs : sh = .good) (alt : Catalog) (steps : List Step)
+    (n : DName) (cls : Nat) :
+    served (loopRun sh alt steps).served n cls = specHist (steps.map (viewOf (cls, foldName n))) := by
+  subst hs
+  rw [loopRun_good]
+  exact C31_served steps n cls
+
+/-- … and so does the loop of the repository under test. -/
+theorem C31_daemon_loop_code (alt : Catalog) (steps : List Step) (n : DName) (cls : Nat) :
+    served (loopRun codeShape alt steps).served n cls =
+      specHist (steps.map (viewOf (cls, foldName n))) :=
+  C31_daemon_loop codeShape (by decide) alt steps n cls
+
+/-- the same for the entry that answers a query name (longest match) -/
+theorem C31_daemon_loop_query (alt : Catalog) (steps : List Step) (n : DName) (cls : Nat) :
+    answering (loopRun codeShape alt steps).served n cls =
+      lsuf (fun k => specHist (steps.map (viewOf k))) cls (foldName n) := by
+  have : codeShape = .good := by decide
+  rw [this, loopRun_good]
+  exact C31_query steps n cls
 
 /-! ### independence -/
 
@@ -249,6 +294,22 @@ example : served (daemonRun (h2.take 2)) nBA 1 = some (.good 20 2 (some 5)) := b
 example : served (daemonRun (h2.take 2)) nA 1 = some (.good 11 1 (some 6)) := by decide +kernel
 example : served (daemonRun h2) nBA 1 = none := by decide +kernel
 example : served (daemonRun h2) nA 1 = some (.good 11 1 (some 6)) := by decide +kernel
+
+/-- **The threading premise is necessary.** A loop that installs each new catalog but keeps the
+    start-up catalog as the baseline of every reload (the `Ok` arm without `catalog = new_catalog`)
+    violates the specification: `a.` loads v10 at start-up, v11 at the first SIGHUP, its file is
+    broken at the second — it must stay on v11 but falls back to v10. -/
+def unthreaded : LoopShape := ⟨true, false, true, true⟩
+def h3 : List Step :=
+  [.reload [⟨nA, 1, 1⟩] (fsOf 1 10 none), .reload [⟨nA, 1, 1⟩] (fsOf 2 11 none),
+   .reload [⟨nA, 1, 1⟩] (fsOf 3 0 none)]
+
+theorem C31_loop_needs_threading :
+    served (loopRun unthreaded Cat.empty h3).served nA 1 = some (.good 10 1 (some 1)) ∧
+    specHist (h3.map (viewOf (1, foldName nA))) = some (.good 11 1 (some 2)) := by decide +kernel
+
+example : served (loopRun .good Cat.empty h3).served nA 1 = some (.good 11 1 (some 2)) := by
+  decide +kernel
 
 /-- the hypotheses of the independence theorem are satisfiable non-trivially: the child's file
     differs between the two environments, the parent's does not -/
